@@ -10,7 +10,8 @@
  *   pexact r|d NMAX    the same calls with an EXACT-size heap allocation in a forked child under ASan; answer
  *                      `none` or `crash n:kind,n:kind,..[,more]` (after a report the sweep resumes at n+1; it
  *                      stops after 48 reports)
- *   pranges s|p        hostlist_shift_range / hostlist_pop_range on a copy until NULL: HEX|HEX|.. or none
+ *   pranges s|p|n      hostlist_shift_range / hostlist_pop_range (on a copy) / hostlist_next_range (iterator) until NULL:
+ *                      HEX|HEX|.. or none
  *   pback r|d          hostlist_create(reference text) compared host by host (the hosts the range records of
  *                      both lists denote) with the current list:  same COUNT | diff I HEXA HEXB | null:ERRNO:FATAL | no-reference
  */
@@ -294,6 +295,37 @@ static void p_ranges(hostlist_t hl, int which)
     hostlist_destroy(c);
 }
 
+/* hostlist_next_range on a fresh iterator over the list itself until NULL (buf[MAXHOSTRANGELEN+1] on the stack).
+ * The call that returns NULL makes _iterator_advance_range read hl->hr[hl->nranges]; when the array is full
+ * (nranges == size) that is a read past the heap block (finding F14-NEXTRANGE): in that situation the final call is
+ * NOT made - the groups are counted beforehand - and the answer ends in `!end-read-past-hr` instead. */
+static void p_next_ranges(hostlist_t hl)
+{
+    hostlist_iterator_t it = hostlist_iterator_create(hl);
+    int k = 0, groups = 0, i, j;
+    char *s;
+    for (i = 0; i < hl->nranges; i = j) {
+        groups++;
+        j = i;
+        while (++j < hl->nranges && hostrange_within_range(hl->hr[i], hl->hr[j])) {;}
+    }
+    for (k = 0; k < groups; k++) {
+        s = hostlist_next_range(it);
+        if (k) putchar('|');
+        if (!s) { printf("!null"); break; }
+        puthex(stdout, s);
+        hl_free(s);
+    }
+    if (!groups) printf("none");
+    if (hl->nranges < hl->size) {
+        s = hostlist_next_range(it);
+        if (s) { printf("!extra"); hl_free(s); }
+    } else
+        printf("!end-read-past-hr");
+    putchar('\n');
+    hostlist_iterator_destroy(it);
+}
+
 /* returns 1 when the op was one of ours */
 static int print_op(hostlist_t hl, const char *op, const char *line)
 {
@@ -303,7 +335,8 @@ static int print_op(hostlist_t hl, const char *op, const char *line)
         return 0;
     sscanf(line, "%*s %7s %63s", k, nm);
     if (!strcmp(op, "pranges")) {
-        if (k[0] != 's' && k[0] != 'p') printf("bad-arg\n"); else p_ranges(hl, k[0]);
+        if (k[0] == 'n') p_next_ranges(hl);
+        else if (k[0] != 's' && k[0] != 'p') printf("bad-arg\n"); else p_ranges(hl, k[0]);
         return 1;
     }
     if (k[0] != 'r' && k[0] != 'd') { printf("bad-arg\n"); return 1; }
